@@ -4,6 +4,11 @@
 // harness/vsched.h; every schedule with <= P preemptions is executed and each thread's observation log must equal
 // the log of the same body run alone. Visibility pass (--free, built with -fsanitize=thread): the same bodies run
 // free on 4 threads x 200 iterations; ThreadSanitizer must stay silent.
+#include <errno.h>
+#include <signal.h>
+#include <string.h>
+#include <unistd.h>
+#include <algorithm>
 #include <array>
 #include <atomic>
 #include <limits>
@@ -43,6 +48,8 @@
 #include <nop/utility/bounded_writer.h>
 #include <nop/utility/buffer_reader.h>
 #include <nop/utility/buffer_writer.h>
+#include <nop/utility/fd_reader.h>
+#include <nop/utility/fd_writer.h>
 #include <nop/utility/pedantic_buffer_reader.h>
 #include <nop/utility/pedantic_buffer_writer.h>
 #include <nop/utility/stream_reader.h>
@@ -517,6 +524,168 @@ static void body_libio(int k, Log& log) {
   }
 }
 
+// ---------------------------------------------------------------- B11: descriptors and signal dispositions (process-wide state the KERNEL owns)
+// The fd reader/writer work on descriptor NUMBERS, and a number closed by one object is handed out again by the next
+// open() anywhere in the process (POSIX: lowest free number). A small model of that table - and of the process-wide
+// SIGPIPE disposition - sits behind --wrap=read/write/close/signal/sigaction: every call is a scheduling point, numbers are
+// reused lowest-first, a write to a descriptor whose peer is gone "raises SIGPIPE" according to the modelled disposition.
+// A second close of a number the object no longer owns, or library code that changes the disposition around its own
+// writes, is invisible while one object runs alone and closes / disarms another thread's descriptor under the right schedule.
+namespace vk {
+constexpr int kBase = 700, kSlots = 24;
+struct VFd { bool open = false, broken = false; std::string data; size_t rpos = 0; long serial = 0; };
+static long next_serial = 0;  // identifies one open(): a NUMBER may be somebody else's descriptor by now
+static std::mutex mu;
+static VFd tab[kSlots];
+extern "C" void app_sigpipe_handler(int) {}
+typedef void (*handler_t)(int);
+static handler_t sigpipe_disp = app_sigpipe_handler;
+static thread_local Log* tl_log = nullptr;  // non-null while a body of this thread runs on the modelled kernel
+struct InBody { explicit InBody(Log* l) { tl_log = l; } ~InBody() { tl_log = nullptr; } };
+static bool mine(int fd) { return fd >= kBase && fd < kBase + kSlots; }
+static int open_fd(const std::string& data, bool broken = false) {
+  YP();
+  std::lock_guard<std::mutex> l(mu);
+  for (int i = 0; i < kSlots; i++)
+    if (!tab[i].open) { tab[i] = VFd(); tab[i].open = true; tab[i].broken = broken; tab[i].data = data; tab[i].serial = ++next_serial; return kBase + i; }
+  return -1;
+}
+static std::string contents(int fd) { std::lock_guard<std::mutex> l(mu); return mine(fd) ? tab[fd - kBase].data : std::string(); }
+static long serial(int fd) { std::lock_guard<std::mutex> l(mu); return mine(fd) ? tab[fd - kBase].serial : -1; }
+static bool is_open(int fd, long ser) { std::lock_guard<std::mutex> l(mu); return mine(fd) && tab[fd - kBase].open && tab[fd - kBase].serial == ser; }
+static int open_count() { std::lock_guard<std::mutex> l(mu); int n = 0; for (auto& f : tab) n += f.open; return n; }
+static void reset() { std::lock_guard<std::mutex> l(mu); for (auto& f : tab) f = VFd(); sigpipe_disp = app_sigpipe_handler; }
+static const char* disp_name(handler_t h) { return h == SIG_IGN ? "SIG_IGN" : h == SIG_DFL ? "SIG_DFL" : h == app_sigpipe_handler ? "application-handler" : "other-handler"; }
+}  // namespace vk
+extern "C" {
+ssize_t __real_read(int, void*, size_t);
+ssize_t __real_write(int, const void*, size_t);
+int __real_close(int);
+vk::handler_t __real_signal(int, vk::handler_t);
+int __real_sigaction(int, const struct sigaction*, struct sigaction*);
+ssize_t __wrap_read(int fd, void* buf, size_t n) {
+  if (!vk::mine(fd)) return __real_read(fd, buf, n);
+  YP();
+  std::lock_guard<std::mutex> l(vk::mu);
+  vk::VFd& f = vk::tab[fd - vk::kBase];
+  if (!f.open) { errno = EBADF; return -1; }
+  size_t k = std::min(n, f.data.size() - f.rpos);
+  if (k) memcpy(buf, f.data.data() + f.rpos, k);
+  f.rpos += k;
+  return (ssize_t)k;
+}
+ssize_t __wrap_write(int fd, const void* buf, size_t n) {
+  if (!vk::mine(fd)) return __real_write(fd, buf, n);
+  YP();
+  std::lock_guard<std::mutex> l(vk::mu);
+  vk::VFd& f = vk::tab[fd - vk::kBase];
+  if (!f.open) { errno = EBADF; return -1; }
+  if (f.broken) {
+    if (vk::tl_log) vk::tl_log->push_back(std::string("kernel: SIGPIPE raised, disposition=") + vk::disp_name(vk::sigpipe_disp));
+    errno = EPIPE;
+    return -1;
+  }
+  f.data.append(static_cast<const char*>(buf), n);
+  return (ssize_t)n;
+}
+int __wrap_close(int fd) {
+  if (!vk::mine(fd)) return __real_close(fd);
+  YP();
+  std::lock_guard<std::mutex> l(vk::mu);
+  vk::VFd& f = vk::tab[fd - vk::kBase];
+  if (!f.open) { errno = EBADF; return -1; }
+  f.open = false;
+  return 0;
+}
+vk::handler_t __wrap_signal(int sig, vk::handler_t h) {
+  if (!vk::tl_log || sig != SIGPIPE) return __real_signal(sig, h);
+  YP();
+  std::lock_guard<std::mutex> l(vk::mu);
+  vk::handler_t old = vk::sigpipe_disp;
+  vk::sigpipe_disp = h;
+  return old;
+}
+int __wrap_sigaction(int sig, const struct sigaction* act, struct sigaction* old) {
+  if (!vk::tl_log || sig != SIGPIPE) return __real_sigaction(sig, act, old);
+  YP();
+  std::lock_guard<std::mutex> l(vk::mu);
+  if (old) { memset(old, 0, sizeof(*old)); old->sa_handler = vk::sigpipe_disp; }
+  if (act) vk::sigpipe_disp = act->sa_handler;
+  return 0;
+}
+}
+struct FdMsg {
+  std::uint8_t a;
+  std::string b;
+  NOP_STRUCTURE(FdMsg, a, b);
+};
+static const char* stname(const nop::Status<void>& s) {
+  return s ? "ok" : s.error() == nop::ErrorStatus::ReadLimitReached ? "ReadLimitReached" : s.error() == nop::ErrorStatus::WriteLimitReached ? "WriteLimitReached"
+           : s.error() == nop::ErrorStatus::IOError ? "IOError" : "other-error";
+}
+static void body_fdio(int k, Log& log) {
+  vk::InBody in_body(&log);
+  const std::uint8_t payload[3] = {(std::uint8_t)(0x10 + k), (std::uint8_t)(0x20 + k), (std::uint8_t)(0x30 + k)};
+  std::string bytes;
+  {
+    // descriptor numbers depend on the schedule (lowest free number) and are never logged
+    const int fd = vk::open_fd("");
+    const long ser = vk::serial(fd);
+    nop::FdWriter w{fd};
+    std::string st;
+    st += stname(w.Prepare(4)); st += ","; st += stname(w.Write((std::uint8_t)(0x40 + k))); st += ","; st += stname(w.Write(payload, payload + 3));
+    bytes = vk::contents(fd);
+    log.push_back("fd-writer:" + st + ":" + shex(bytes));
+    w.Clear();  // closes the descriptor; its number is free again
+    log.push_back(std::string("after-clear:") + (vk::is_open(fd, ser) ? "STILL-OPEN UNEXPECTED" : "closed"));
+    const int fd2 = vk::open_fd(bytes);  // run alone this is the number just closed; under a schedule it may go to the other thread
+    const long ser2 = vk::serial(fd2);
+    nop::FdReader r{fd2};
+    std::uint8_t b = 0, got[3] = {0, 0, 0};
+    st = stname(r.Ensure(1)); st += ","; st += stname(r.Read(&b));
+    log.push_back("fd-reader-1:" + st + ":" + std::to_string(b) + (b == 0x40 + k ? "" : " UNEXPECTED"));
+    { nop::FdWriter w2{std::move(w)}; }  // a cleared writer owns nothing: neither the moved-to nor the moved-from object may close anything
+    w.Clear();
+    st = stname(r.Read(got, got + 3));
+    log.push_back("fd-reader-2:" + st + ":" + hex(got, 3) + (memcmp(got, payload, 3) == 0 ? "" : " UNEXPECTED"));
+    nop::FdReader r2;
+    r2 = std::move(r);  // ownership moves; the moved-from reader closes nothing
+    r.Clear();
+    log.push_back(std::string("fd-reader-moved:") + stname(r2.Read(&b)) + (vk::is_open(fd2, ser2) ? "" : " CLOSED-EARLY UNEXPECTED"));
+    const int rel = r2.Release();  // released: the caller closes it
+    r2.Clear();
+    log.push_back(std::string("released:") + (rel == fd2 && vk::is_open(fd2, ser2) ? "open" : "UNEXPECTED"));
+    ::close(rel);
+  }
+  {
+    // a struct through Serializer<FdWriter> / Deserializer<FdReader>, objects destroyed in between
+    FdMsg m{(std::uint8_t)(7 + k), std::string(2 + (size_t)k, (char)('a' + k))}, back{0, ""};
+    const int fd = vk::open_fd("");
+    {
+      nop::Serializer<nop::FdWriter> ser{fd};
+      auto s = ser.Write(m);
+      bytes = vk::contents(fd);
+      log.push_back(std::string("serializer:") + stname(s) + ":" + shex(bytes));
+    }
+    const int fd2 = vk::open_fd(bytes);
+    const long ser2 = vk::serial(fd2);
+    {
+      nop::Deserializer<nop::FdReader> des{fd2};
+      auto s = des.Read(&back);
+      log.push_back(std::string("deserializer:") + stname(s) + ":" + std::to_string(back.a) + "/" + back.b + (back.a == m.a && back.b == m.b ? "" : " UNEXPECTED"));
+    }
+    log.push_back(std::string("descriptors-after-scope:") + (vk::is_open(fd2, ser2) ? "LEFT-OPEN UNEXPECTED" : "closed"));
+  }
+  {
+    // the peer of this descriptor is gone: the kernel raises SIGPIPE according to the process-wide disposition, which
+    // belongs to the application (the harness installed its handler); the write itself fails with EPIPE
+    const int fd = vk::open_fd("", true);
+    nop::FdWriter bw{fd};
+    auto s = bw.Write((std::uint8_t)0x99);
+    log.push_back(std::string("broken-pipe-write:") + stname(s));
+  }
+}
+
 // B10: every form of slot tag the library offers; each (T, Slot) pair is its own per-thread value
 struct SlotTag;
 template <class TL>
@@ -554,8 +723,8 @@ static void body_tls_slots(int k, Log& log) {
 
 struct Body { const char* name; void (*fn)(int, Log&); };
 static const Body kBodies[] = {{"roundtrip", body_roundtrip}, {"table", body_table}, {"values", body_values}, {"rpc", body_rpc},
-                               {"tlsA", body_tls_a}, {"tlsB", body_tls_b}, {"rpcMethod", body_rpc_method}, {"tlsCtor", body_tls_ctor}, {"wide", body_wide}, {"libio", body_libio}, {"tlsSlots", body_tls_slots}};
-static const int kNumBodies = 11;
+                               {"tlsA", body_tls_a}, {"tlsB", body_tls_b}, {"rpcMethod", body_rpc_method}, {"tlsCtor", body_tls_ctor}, {"wide", body_wide}, {"libio", body_libio}, {"tlsSlots", body_tls_slots}, {"fdio", body_fdio}};
+static const int kNumBodies = 12;
 
 static std::string join(const Log& l) { std::string s; for (auto& x : l) s += x + "\n"; return s; }
 
@@ -564,7 +733,8 @@ static void explore_set(const std::vector<int>& set, int bound) {
   for (int b : set) tag += std::string(tag.empty() ? "" : "+") + kBodies[b].name;
   // solo logs: body b run alone as thread index i (values depend on the thread index)
   std::vector<Log> solo(set.size());
-  for (size_t i = 0; i < set.size(); i++) kBodies[set[i]].fn((int)i, solo[i]);
+  for (size_t i = 0; i < set.size(); i++) { vk::reset(); kBodies[set[i]].fn((int)i, solo[i]); }
+  vk::reset();
   // the bodies check their own expectations even when running alone (round trip equality, slot independence)
   for (size_t i = 0; i < set.size(); i++)
     for (auto& line : solo[i])
@@ -584,17 +754,26 @@ static void explore_set(const std::vector<int>& set, int bound) {
     for (char c : A.only.substr(pre.size())) prefix.push_back(c - '0');
     for (int rep = 0; rep < 2; rep++) {
       for (auto& l : logs) l.clear();
+      vk::reset();
       Sched::get().run(prefix, bodies);
+      if (vk::sigpipe_disp != vk::app_sigpipe_handler || vk::open_count() != 0)
+        R.viol("C19|process-state|with:" + tag, A.only, std::string("after all threads finished the SIGPIPE disposition is ") + vk::disp_name(vk::sigpipe_disp) + " and " + std::to_string(vk::open_count()) + " modelled descriptors are still open");
       for (size_t i = 0; i < set.size(); i++)
         if (logs[i] != solo[i])
           R.viol(std::string("C19|interference|") + kBodies[set[i]].name, A.only, "thread " + std::to_string(i) + " (" + kBodies[set[i]].name + ") observed\n" + join(logs[i]) + "alone it observes\n" + join(solo[i]));
     }
     return;
   }
-  explore_schedules(bodies, bound, [&] { for (auto& l : logs) l.clear(); },
+  explore_schedules(bodies, bound, [&] { for (auto& l : logs) l.clear(); vk::reset(); },
                     [&](const std::vector<int>& ch) {
                       R.counters["transitions"] += ch.size();
                       std::string oc;
+                      // process-wide state the kernel keeps for the application must be what it was before the threads ran
+                      if (vk::sigpipe_disp != vk::app_sigpipe_handler || vk::open_count() != 0)
+                        R.viol("C19|process-state|with:" + tag, "C19|" + tag + "|" + schedstr(ch),
+                               std::string("after all threads finished the SIGPIPE disposition is ") + vk::disp_name(vk::sigpipe_disp) + " (the application's handler was installed) and " +
+                                   std::to_string(vk::open_count()) + " modelled descriptors are still open",
+                               "{\"bodies\":" + jstr(tag) + ",\"schedule\":" + jstr(schedstr(ch)) + "}");
                       for (size_t i = 0; i < set.size(); i++) {
                         oc += std::to_string(fnv(join(logs[i]))) + ",";
                         if (logs[i] != solo[i]) {
@@ -624,6 +803,7 @@ static void explore_set(const std::vector<int>& set, int bound) {
   {
     std::vector<int> c1 = Sched::get().choices;
     for (auto& l : logs) l.clear();
+    vk::reset();
     Sched::get().run(c1, bodies);
     if (Sched::get().choices != c1) printf("{\"t\":\"broken\",\"msg\":\"replay of a recorded schedule made different choices (%s)\"}\n", tag.c_str());
   }
@@ -713,7 +893,9 @@ int main(int argc, char** argv) {
   sets.push_back({10, 10});
   sets.push_back({4, 10});
   sets.push_back({4, 4, 5});
-  if (A.thorough()) { sets.push_back({0, 0, 0}); sets.push_back({4, 5, 5}); sets.push_back({0, 1, 4}); }
+  sets.push_back({11, 11});  // descriptor numbers and signal dispositions are process-wide
+  sets.push_back({9, 11});
+  if (A.thorough()) { sets.push_back({11, 11, 11}); sets.push_back({0, 0, 0}); sets.push_back({4, 5, 5}); sets.push_back({0, 1, 4}); }
   for (size_t i = 0; i < sets.size(); i++) {
     if ((int)(i % A.nshards) != A.shard) continue;
     const bool wide_set = sets[i].back() >= 8;  // ~540 scheduling points: bound 3 would exceed the schedule cap
